@@ -36,9 +36,9 @@ type COp struct {
 }
 
 type CProg struct {
-	Parent string `json:"parent"` // mem iavl prefix cache
+	Parent string       `json:"parent"` // mem iavl prefix cache
 	Init   map[B]string `json:"init"`
-	Ops    []COp  `json:"ops"`
+	Ops    []COp        `json:"ops"`
 }
 
 var cAlpha = []string{"a", "ab", "abc", "abd", "b", "\x00", "\x00\x01", "\xff", "\xff\xff", "k", "ka", "m"}
@@ -567,9 +567,9 @@ type CMOp struct {
 
 type CMProg struct {
 	NStores int      `json:"stores"`
-	Rounds  [][]CMOp `json:"rounds"`  // ops of each cache-wrap round
-	Commit  []bool   `json:"commit"`  // Write() or discard after each round
-	Nested  []bool   `json:"nested"`  // run the round inside a second-level CacheMultiStore that is written first
+	Rounds  [][]CMOp `json:"rounds"` // ops of each cache-wrap round
+	Commit  []bool   `json:"commit"` // Write() or discard after each round
+	Nested  []bool   `json:"nested"` // run the round inside a second-level CacheMultiStore that is written first
 }
 
 func GenCMProg(r *sim.Rand) CMProg {
